@@ -366,8 +366,41 @@ fn enc_history_props(ctx: &mut Ctx, st: &EncState, call: &EncCall, got: &Outcome
     ctx.count("r3.verdict_replays_on_fresh_object");
     if &fresh != got {
         extra.push("C05");
+        if st.rounds > 0 {
+            extra.push("C12"); // the round follows a dropped result: the drop did not start a clean round
+        }
     }
     extra
+}
+
+/// Engine dependence of a wrong answer (C03): the same round on a fresh object with another engine.
+fn enc_engine_props(ctx: &mut Ctx, st: &EncState, call: &EncCall, got: &Outcome) -> Vec<&'static str> {
+    if st.kind.layer == Layer::Rs || matches!(got, Outcome::Ok) {
+        return Vec::new();
+    }
+    let other = Kind { layer: st.kind.layer, engine: if st.kind.engine == EngineKind::NoSimd { EngineKind::Naive } else { EngineKind::NoSimd } };
+    let (k, r, b) = st.cfg;
+    let run = |ctx: &mut Ctx, kind: Kind| {
+        let res = ctx.shadow(|| -> Result<(), Error> {
+            let mut enc = enc_new(kind, k, r, b, None)?;
+            for s in &st.shards {
+                enc.add(s)?;
+            }
+            match call {
+                EncCall::Add(shard) => enc.add(shard),
+                EncCall::Encode => enc.encode().map(|_| ()),
+                EncCall::Reset(k2, r2, b2) => enc.reset(*k2, *r2, *b2),
+            }
+        });
+        outcome_of(&res)
+    };
+    let same = run(ctx, st.kind);
+    let oth = run(ctx, other);
+    if same != oth {
+        vec!["C03"]
+    } else {
+        Vec::new()
+    }
 }
 
 pub enum DecCall<'a> {
@@ -412,8 +445,50 @@ fn dec_history_props(ctx: &mut Ctx, st: &DecState, call: &DecCall, got: &Outcome
     ctx.count("r3.verdict_replays_on_fresh_object");
     if &fresh != got {
         extra.push("C05");
+        if st.rounds > 0 {
+            extra.push("C12");
+        }
     }
     extra
+}
+
+fn dec_engine_props(ctx: &mut Ctx, st: &DecState, call: &DecCall, got: &Outcome) -> Vec<&'static str> {
+    if st.kind.layer == Layer::Rs || matches!(got, Outcome::Ok) {
+        return Vec::new();
+    }
+    let other = Kind { layer: st.kind.layer, engine: if st.kind.engine == EngineKind::NoSimd { EngineKind::Naive } else { EngineKind::NoSimd } };
+    let (k, r, b) = st.cfg;
+    let run = |ctx: &mut Ctx, kind: Kind| {
+        let res = ctx.shadow(|| -> Result<(), Error> {
+            let mut dec = dec_new(kind, k, r, b, None)?;
+            for a in &st.adds {
+                if a.is_rec {
+                    dec.add_recovery(a.index, &a.data)?;
+                } else {
+                    dec.add_original(a.index, &a.data)?;
+                }
+            }
+            match call {
+                DecCall::Add(is_rec, index, shard) => {
+                    if *is_rec {
+                        dec.add_recovery(*index, shard)
+                    } else {
+                        dec.add_original(*index, shard)
+                    }
+                }
+                DecCall::Decode => dec.decode().map(|_| ()),
+                DecCall::Reset(k2, r2, b2) => dec.reset(*k2, *r2, *b2),
+            }
+        });
+        outcome_of(&res)
+    };
+    let same = run(ctx, st.kind);
+    let oth = run(ctx, other);
+    if same != oth {
+        vec!["C03"]
+    } else {
+        Vec::new()
+    }
 }
 
 fn report_panic_x(ctx: &mut Ctx, kind: &str, op: &'static str, call: &str, failed_ever: bool, msg: &str, extra: &[&'static str]) -> bool {
@@ -804,14 +879,19 @@ fn enc_encode(ch: &mut Chooser, ctx: &mut Ctx, obj: &mut dyn DynEncoder, st: &mu
                 _ => "drop",
             };
             // history dependence is only judged for the encode call itself (the replay does not probe results)
-            let extra = if stage == "encode" { enc_history_props(ctx, st, &EncCall::Encode, &Outcome::Panic) } else { Vec::new() };
+            let mut extra = if stage == "encode" { enc_history_props(ctx, st, &EncCall::Encode, &Outcome::Panic) } else { Vec::new() };
+            if stage == "encode" {
+                extra.extend(enc_engine_props(ctx, st, &EncCall::Encode, &Outcome::Panic));
+            }
             return report_panic_x(ctx, &st.kind.name(), op, &format!("encode() [{stage}] with {fill}/{k} shards"), st.failed_ever, &msg, &extra);
         }
     };
     ev!(ctx, "#{op_no} encode() with {fill}/{k} shards -> {:?}", out.as_ref().map(|p| p.as_ref().map(|v| v.len())));
     ctx.hash.feed_u64(out.as_ref().err().map_or(0, err_code));
     if let Some(why) = judge(&out, &adm) {
-        let extra = enc_history_props(ctx, st, &EncCall::Encode, &out.as_ref().map_or_else(|e| Outcome::Err(*e), |_| Outcome::Ok));
+        let got = out.as_ref().map_or_else(|e| Outcome::Err(*e), |_| Outcome::Ok);
+        let mut extra = enc_history_props(ctx, st, &EncCall::Encode, &got);
+        extra.extend(enc_engine_props(ctx, st, &EncCall::Encode, &got));
         return ctx.viol(&verdict_props_x("encode", st.failed_ever, &extra), "verdict", format!("verdict/encode/{}", out.as_ref().err().map_or("Ok", err_name)), format!("{}{:?}.encode() with {fill} of {k} shards added {why}", st.kind.name(), st.cfg), true);
     }
     let probed = match out {
@@ -839,7 +919,8 @@ fn enc_encode(ch: &mut Chooser, ctx: &mut Ctx, obj: &mut dyn DynEncoder, st: &mu
     let recovery = match probed {
         Ok(v) => v,
         Err(why) => {
-            return ctx.viol(&["C12"], "result-contract", format!("enc-result/{}", why.split_whitespace().next().unwrap_or("")), format!("{}{:?} EncoderResult: {why}", st.kind.name(), st.cfg), true);
+            let props: &[&'static str] = if why.contains(" bytes, expected") { &["C12", "C04"] } else { &["C12"] };
+            return ctx.viol(props, "result-contract", format!("enc-result/{}", why.split_whitespace().next().unwrap_or("")), format!("{}{:?} EncoderResult: {why}", st.kind.name(), st.cfg), true);
         }
     };
     ctx.hash.feed_u64(digest(&recovery));
@@ -1136,7 +1217,8 @@ pub fn run_decoder(ch: &mut Chooser, ctx: &mut Ctx) {
                     let res = match res {
                         Ok(v) => v,
                         Err(msg) => {
-                            let extra = dec_history_props(ctx, &st, &DecCall::Add(is_rec, index, &data), &Outcome::Panic);
+                            let mut extra = dec_history_props(ctx, &st, &DecCall::Add(is_rec, index, &data), &Outcome::Panic);
+                            extra.push("C01");
                             report_panic_x(ctx, &st.kind.name(), "add", &format!("add_{}_shard({index}, len {b})", if is_rec { "recovery" } else { "original" }), st.failed_ever, &msg, &extra);
                             return;
                         }
@@ -1144,7 +1226,8 @@ pub fn run_decoder(ch: &mut Chooser, ctx: &mut Ctx) {
                     ev!(ctx, "#{op_no} add_{}_shard({index}) -> {res:?}", if is_rec { "recovery" } else { "original" });
                     ctx.hash.feed_u64(index as u64 * 2 + u64::from(is_rec));
                     if let Some(why) = judge(&res, &[]) {
-                        let extra = dec_history_props(ctx, &st, &DecCall::Add(is_rec, index, &data), &res.map_or_else(Outcome::Err, |()| Outcome::Ok));
+                        let mut extra = dec_history_props(ctx, &st, &DecCall::Add(is_rec, index, &data), &res.map_or_else(Outcome::Err, |()| Outcome::Ok));
+                        extra.push("C01");
                         ctx.viol(&verdict_props_x("add", st.failed_ever, &extra), "verdict", format!("verdict/dec.add/{}", res.as_ref().err().map_or("Ok", err_name)), format!("{}{:?}.add_{}_shard({index}, valid shard) {why}", st.kind.name(), st.cfg, if is_rec { "recovery" } else { "original" }), true);
                         return;
                     }
@@ -1416,14 +1499,22 @@ fn dec_decode(ch: &mut Chooser, ctx: &mut Ctx, obj: &mut dyn DynDecoder, st: &mu
                 "result" => "result",
                 _ => "drop",
             };
-            let extra = if stage == "decode" { dec_history_props(ctx, st, &DecCall::Decode, &Outcome::Panic) } else { Vec::new() };
+            let mut extra = if stage == "decode" { dec_history_props(ctx, st, &DecCall::Decode, &Outcome::Panic) } else { Vec::new() };
+            if stage == "decode" {
+                extra.extend(dec_engine_props(ctx, st, &DecCall::Decode, &Outcome::Panic));
+                if st.n_o + st.n_r >= k {
+                    extra.push("C01"); // enough valid shards were given, decode must succeed
+                }
+            }
             return report_panic_x(ctx, &st.kind.name(), op, &format!("decode() [{stage}] with {}+{} of {k} shards", st.n_o, st.n_r), st.failed_ever, &msg, &extra);
         }
     };
     ev!(ctx, "#{op_no} decode() with {} original + {} recovery of k={k} -> {:?}", st.n_o, st.n_r, out.as_ref().map(|p| p.as_ref().map(|m| m.len())));
     ctx.hash.feed_u64(out.as_ref().err().map_or(0, err_code));
     if let Some(why) = judge(&out, &adm) {
-        let extra = dec_history_props(ctx, st, &DecCall::Decode, &out.as_ref().map_or_else(|e| Outcome::Err(*e), |_| Outcome::Ok));
+        let got = out.as_ref().map_or_else(|e| Outcome::Err(*e), |_| Outcome::Ok);
+        let mut extra = dec_history_props(ctx, st, &DecCall::Decode, &got);
+        extra.extend(dec_engine_props(ctx, st, &DecCall::Decode, &got));
         let mut props = verdict_props_x("decode", st.failed_ever, &extra);
         if adm.is_empty() {
             props.push("C01"); // enough valid shards but decode failed
@@ -1466,7 +1557,8 @@ fn dec_decode(ch: &mut Chooser, ctx: &mut Ctx, obj: &mut dyn DynDecoder, st: &mu
     let restored = match probed {
         Ok(m) => m,
         Err(why) => {
-            return ctx.viol(&["C12", "C11"], "result-contract", format!("dec-result/{}", why.split_whitespace().next().unwrap_or("")), format!("{}{:?} DecoderResult: {why}", st.kind.name(), st.cfg), true);
+            let props: &[&'static str] = if why.contains(" bytes, expected") { &["C12", "C04"] } else { &["C12", "C11", "C01"] };
+            return ctx.viol(props, "result-contract", format!("dec-result/{}", why.split_whitespace().next().unwrap_or("")), format!("{}{:?} DecoderResult: {why}", st.kind.name(), st.cfg), true);
         }
     };
     let reused = st.has_history || st.rounds > 0 || st.failed_round;
